@@ -82,8 +82,12 @@ def val_debugdep(ctx: Ctx) -> RuleResult:
                   "production values could then depend on RUN_DEBUG_NODES", None)
         return r
     t = dbg[0].test
+    # the dependency's node: the table entry `<nodes>[dep.id]`, or a local bound to it in the loop
+    dep_nodes = {n.targets[0].id for n in own_walk(lp) if isinstance(n, ast.Assign) and isinstance(n.targets[0], ast.Name)
+                 and norm_src(n.value).endswith(f"[{dv}.id]")}
     ok = isinstance(t, ast.BoolOp) and isinstance(t.op, ast.And) and len(t.values) == 2 and \
-        norm_src(t.values[0]) == "not self.debug" and norm_src(t.values[1]).endswith(f"[{dv}.id].debug")
+        norm_src(t.values[0]) == "not self.debug" and (norm_src(t.values[1]).endswith(f"[{dv}.id].debug")
+                                                       or norm_src(t.values[1]) in {f"{n_}.debug" for n_ in dep_nodes})
     r.ob(ok, {"test": norm_src(t)})
     if not ok:
         raise Undecided(f"{f.short}: debug-dependency test not recognised: {norm_src(t)}")
